@@ -47,7 +47,10 @@ func (w *yieldWriter) Write(p []byte) (int, error) {
 	return w.buf.Write(p)
 }
 
-type yieldInline struct{ every int32; n atomic.Int32 }
+type yieldInline struct {
+	every int32
+	n     atomic.Int32
+}
 
 func (y *yieldInline) Trigger() []byte { return []byte{'!'} }
 func (y *yieldInline) Parse(parent ast.Node, block text.Reader, pc parser.Context) ast.Node {
